@@ -761,6 +761,9 @@ func genOverlay(pc *PkgContracts, files []*ast.File, specDir string) (string, er
 			switch {
 			case strings.HasSuffix(it, "[:]"):
 				e = strings.TrimSuffix(it, "[:]")
+			case strings.HasSuffix(it, "]") && strings.Contains(it[strings.LastIndex(it, "["):], ":"):
+				// a sub-slice region: x[lo:hi]
+				e = it
 			case strings.HasPrefix(it, "*"):
 				e = strings.TrimPrefix(it, "*")
 			case strings.HasPrefix(it, "ghost:"):
